@@ -188,7 +188,22 @@ Proof.
   apply IH; auto. now rewrite last_ent_app.
 Qed.
 
-Definition writers_sorted (ws : list (N * swriter)) : Prop := forall sid w, wlookup ws sid = Some w -> sorted (w_ents w).
+Definition writers_sorted (ws : list (N * swriter)) : Prop :=
+  Forall (fun sw => sorted (w_ents (snd sw))) ws.
+
+Lemma wlookup_in ws sid w : wlookup ws sid = Some w -> In (sid, w) ws.
+Proof.
+  induction ws as [|[j x] r IH]; cbn [wlookup]; [discriminate|].
+  destruct (j =? sid) eqn:E; [|intros H; right; auto].
+  apply N.eqb_eq in E. subst j. intros [= ->]. now left.
+Qed.
+
+Lemma wupdate_forall (P : N * swriter -> Prop) ws sid w :
+  Forall P ws -> P (sid, w) -> Forall P (wupdate ws sid w).
+Proof.
+  intros H Hw. induction ws as [|[j x] r IH]; cbn [wupdate]; [repeat constructor; auto|].
+  inversion H; subst. destruct (j =? sid); constructor; auto.
+Qed.
 
 Lemma send_reqs_sorted ws reqs ws' :
   send_reqs ws reqs = Some ws' -> writers_sorted ws -> writers_sorted ws'.
@@ -197,23 +212,19 @@ Proof.
   intros H Hs. destruct (wlookup ws j) as [w|] eqn:Ew.
   - destruct (w_closed w); [discriminate|].
     destruct (add_all (last_ent (w_ents w)) es) eqn:Ea; [|discriminate].
-    apply (IH _ H). intros sid w' Hw'. destruct (N.eq_dec sid j) as [->|Hne].
-    + rewrite wlookup_wupdate_same in Hw'. inversion Hw'; subst. cbn. apply add_all_sorted; eauto.
-    + rewrite wlookup_wupdate_other in Hw' by assumption. eauto.
+    apply (IH _ H). apply wupdate_forall; auto. cbn [snd w_ents]. apply add_all_sorted; auto.
+    apply wlookup_in in Ew. unfold writers_sorted in Hs. rewrite Forall_forall in Hs. apply (Hs _ Ew).
   - destruct (add_all None es) eqn:Ea; [|discriminate].
-    apply (IH _ H). intros sid w' Hw'. destruct (N.eq_dec sid j) as [->|Hne].
-    + rewrite wlookup_wupdate_same in Hw'. inversion Hw'; subst. cbn.
-      apply (add_all_sorted [] es); [constructor|exact Ea].
-    + rewrite wlookup_wupdate_other in Hw' by assumption. eauto.
+    apply (IH _ H). apply wupdate_forall; auto. cbn [snd w_ents].
+    apply (add_all_sorted [] es); [constructor|exact Ea].
 Qed.
 
 Lemma close_streams_sorted ws closed : writers_sorted ws -> writers_sorted (close_streams ws closed).
 Proof.
   revert ws. induction closed as [|c r IH]; intros ws Hs; cbn [close_streams]; auto.
   destruct (wlookup ws c) as [w|] eqn:E; apply IH; auto.
-  intros sid w' Hw'. destruct (N.eq_dec sid c) as [->|Hne].
-  - rewrite wlookup_wupdate_same in Hw'. inversion Hw'; subst. cbn. eauto.
-  - rewrite wlookup_wupdate_other in Hw' by assumption. eauto.
+  apply wupdate_forall; auto. cbn [snd w_ents].
+  apply wlookup_in in E. unfold writers_sorted in Hs. rewrite Forall_forall in Hs. apply (Hs _ E).
 Qed.
 
 Theorem sw_writes_sorted st writes st' :
@@ -225,4 +236,128 @@ Proof.
   destruct (demux _ _ _ _) as [[[closed reqs] maxv]|]; [|discriminate].
   destruct (send_reqs _ _) as [ws|] eqn:Es; [|discriminate]. inversion E; subst. cbn [sw_writers].
   apply close_streams_sorted. eapply send_reqs_sorted; eauto.
+Qed.
+
+(* ---- D. table cuts ---- *)
+Lemma cut_ok_concat s layout : cut_ok s layout = true -> concat (map t_ents (split_counts s layout)) = s.
+Proof.
+  revert s. induction layout as [|[id n] r IH]; intros s; cbn [cut_ok split_counts map concat].
+  - destruct s; [reflexivity|discriminate].
+  - intros H. repeat (apply andb_true_iff in H; destruct H as [H ?]).
+    cbn [t_ents]. rewrite IH by assumption. apply firstn_skipn.
+Qed.
+
+(* a cut never separates two versions of one user key, no table is empty *)
+Lemma cut_ok_tables s layout t :
+  cut_ok s layout = true -> In t (split_counts s layout) -> t_ents t <> [].
+Proof.
+  revert s. induction layout as [|[id n] r IH]; intros s; cbn [cut_ok split_counts]; [contradiction|].
+  intros H [<-|Ht].
+  - repeat (apply andb_true_iff in H; destruct H as [H ?]). cbn [t_ents].
+    apply negb_true_iff, N.eqb_neq in H. apply Nat.eqb_eq in H2. intros E. rewrite E in H2. cbn in H2. lia.
+  - repeat (apply andb_true_iff in H; destruct H as [H ?]). eapply IH; eauto.
+Qed.
+
+Lemma sorted_firstn n (s : src) : sorted s -> sorted (firstn n s).
+Proof. intros H. rewrite <- (firstn_skipn n s) in H. now apply sorted_app_l in H. Qed.
+Lemma sorted_skipn n (s : src) : sorted s -> sorted (skipn n s).
+Proof. intros H. rewrite <- (firstn_skipn n s) in H. now apply sorted_app_r in H. Qed.
+
+Lemma split_counts_sorted s layout t : sorted s -> In t (split_counts s layout) -> sorted (t_ents t).
+Proof.
+  revert s. induction layout as [|[id n] r IH]; intros s Hs; cbn [split_counts]; [contradiction|].
+  intros [<-|Ht]; [cbn; now apply sorted_firstn|]. eapply IH; [|exact Ht]. now apply sorted_skipn.
+Qed.
+
+(* ---- E. sortTables is a permutation ---- *)
+Lemma ins_table_in t l x : In x (ins_table t l) <-> x = t \/ In x l.
+Proof.
+  induction l as [|y r IH]; cbn [ins_table]; [cbn; intuition congruence|].
+  destruct (smallest_le t y); cbn [In]; [intuition congruence|]. rewrite IH. intuition congruence.
+Qed.
+
+Lemma sort_tables_in l x : In x (sort_tables l) <-> In x l.
+Proof.
+  unfold sort_tables. induction l as [|y r IH]; cbn [fold_right]; [tauto|].
+  rewrite ins_table_in, IH. cbn. intuition congruence.
+Qed.
+
+(* ---- F. validate implies one sorted run ---- *)
+Lemma sorted_app_intro (a b : src) :
+  sorted a -> sorted b ->
+  (forall x y, last_ent a = Some x -> hd_error b = Some y -> lt_ent x y) ->
+  sorted (a ++ b).
+Proof.
+  revert a. induction b as [|y b IH]; intros a Ha Hb H; [now rewrite app_nil_r|].
+  replace (a ++ y :: b) with ((a ++ [y]) ++ b) by now rewrite <- app_assoc.
+  inversion Hb as [|? ? Hb' Hall]; subst. apply IH; auto.
+  - apply sorted_snoc; [exact Ha|]. intros l Hl. now apply H.
+  - intros x z Hx Hz. rewrite last_ent_app in Hx. inversion Hx; subst x.
+    rewrite Forall_forall in Hall. apply Hall. destruct b; [discriminate|]. inversion Hz; subst. now left.
+Qed.
+
+Lemma level_valid_cons2 a b r :
+  level_valid (a :: b :: r) =
+  match t_biggest a, t_smallest b, t_biggest b with
+  | Some ba, Some sb, Some bb =>
+      match ent_cmp ba sb with Lt => true | _ => false end
+      && match ent_cmp sb bb with Gt => false | _ => true end
+      && level_valid (b :: r)
+  | _, _, _ => false
+  end.
+Proof. reflexivity. Qed.
+
+(* util.go validate on a level whose tables are sorted and non-empty: the level is one
+   strictly increasing run (what the lookup of a level >= 1 relies on: GetProofs.level_ok) *)
+Theorem level_valid_sorted l :
+  Forall (fun t => sorted (t_ents t)) l -> Forall (fun t => t_ents t <> []) l ->
+  level_valid l = true -> level_ok l.
+Proof.
+  intros Hs Hne Hv. split; [|exact Hne].
+  induction l as [|a r IH]; cbn [map concat]; [constructor|].
+  inversion Hs as [|? ? Hsa Hsr]; subst. inversion Hne as [|? ? Hna Hnr]; subst.
+  destruct r as [|b r'].
+  - cbn. now rewrite app_nil_r.
+  - rewrite level_valid_cons2 in Hv.
+    destruct (t_biggest a) as [ba|] eqn:Eba; [|discriminate].
+    destruct (t_smallest b) as [sb|] eqn:Esb; [|discriminate].
+    destruct (t_biggest b) as [bb|] eqn:Ebb; [|discriminate].
+    apply andb_true_iff in Hv. destruct Hv as [Hv Hv3]. apply andb_true_iff in Hv. destruct Hv as [Hv1 _].
+    apply sorted_app_intro; [exact Hsa|now apply IH|].
+    intros x y Hx Hy. unfold t_biggest in Eba. fold (last_ent (t_ents a)) in Eba.
+    assert (x = ba) by congruence. subst x.
+    assert (y = sb).
+    { unfold t_smallest in Esb. cbn [map concat] in Hy. destruct (t_ents b) as [|e0 eb]; [discriminate|].
+      cbn in Hy, Esb. congruence. }
+    subst y. unfold lt_ent. destruct (ent_cmp ba sb); try discriminate. reflexivity.
+Qed.
+
+(* ---- G. the contents of the tree after Flush ---- *)
+Definition entries_of (ws : list (N * swriter)) : list entry := flat_map (fun sw => w_ents (snd sw)) ws.
+Definition tables_entries (ts : list table) : list entry := concat (map t_ents ts).
+Definition levels_entries (ls : list (list table)) : list entry := concat (levels_srcs 0 ls).
+
+Lemma build_tables_entries ws ly ts :
+  build_tables ws ly = Some ts -> tables_entries ts = entries_of ws.
+Proof.
+  revert ts. induction ws as [|[sid w] r IH]; intros ts; cbn [build_tables entries_of flat_map].
+  - intros [= <-]. reflexivity.
+  - destruct (cut_ok (w_ents w) (layouts_lookup ly sid)) eqn:Ec; [|discriminate].
+    destruct (build_tables r ly) as [ts'|]; [|discriminate]. intros [= <-].
+    unfold tables_entries. rewrite map_app, concat_app. cbn [snd].
+    rewrite cut_ok_concat by assumption. f_equal. now apply IH.
+Qed.
+
+Lemma build_tables_ok ws ly ts :
+  build_tables ws ly = Some ts -> writers_sorted ws ->
+  Forall (fun t => sorted (t_ents t)) ts /\ Forall (fun t => t_ents t <> []) ts.
+Proof.
+  revert ts. induction ws as [|[sid w] r IH]; intros ts; cbn [build_tables].
+  - intros [= <-] _. split; constructor.
+  - destruct (cut_ok (w_ents w) (layouts_lookup ly sid)) eqn:Ec; [|discriminate].
+    destruct (build_tables r ly) as [ts'|]; [|discriminate]. intros [= <-] Hs.
+    inversion Hs as [|? ? Hw Hr]; subst. destruct (IH ts' eq_refl Hr) as [A B].
+    split; apply Forall_app; split; auto; apply Forall_forall; intros t Ht.
+    + eapply split_counts_sorted; eauto.
+    + eapply cut_ok_tables; eauto.
 Qed.
